@@ -18,7 +18,8 @@ RULE = (
     'per kernel (9 elastic kernels of conversion/tof.py; quick 6000 correspondence + 5000 oracle cases per kernel, thorough 150000 + 100000): operand values log-uniform over 1e-9..1e9 SI in double '
     'precision (1e-6..1e6 and results inside the float32 range as soon as one operand is float32), element types: 40 % all float64, '
     '20 % all float32, 40 % an independent type per argument from float64/float32/int64/int32 (float32 geometry with float64 data and '
-    'vice versa, integer data); tolerance by the dtype of the RESULT (float64: 1e-11, float32: 1e-5); scattering angles in (0, pi] '
+    'vice versa, integer data; integer operands over the whole range the code supports: int32 to 2^31-1, int64 to 1e15, '
+    'capped at sqrt(max) only for the operand energy_from_wavelength squares in integer arithmetic); tolerance by the dtype of the RESULT (float64: 1e-11, float32: 1e-5); scattering angles in (0, pi] '
     'with pi itself, 1e-12..1e-3 neighbourhoods of pi and 1e-12..1e-2 neighbourhoods of 0 over-weighted; units drawn '
     'per argument from ps/ns/us/ms/s, fm/pm/angstrom/nm/um/mm/cm/m/km (flight paths AND wavelengths), neV/ueV/meV/eV/keV/J, '
     'deg/rad, 1/pm,1/angstrom,1/nm,1/um,1/mm,1/m; operand '
@@ -151,7 +152,9 @@ def gen_cases(rng, kernel, mode, shape, n, ranges=None):
     else:
         dtypes = {a: mode for a, _ in kernel.args}
     ranges = tk.WIDE32 if 'float32' in dtypes.values() else tk.WIDE
-    values = {a: [tk.draw_value(rng, kind, units[a], dtypes[a], ranges) for _ in range(n)] for a, kind in kernel.args}
+    single = all(dtypes[a] == 'float32' for a in kernel.data)  # float32 result: huge integers would overflow float32
+    values = {a: [tk.draw_value(rng, kind, units[a], dtypes[a], ranges, tk.int_cap(kernel.name, a, dtypes[a], single))
+                  for _ in range(n)] for a, kind in kernel.args}
     return units, dtypes, values
 
 
